@@ -171,8 +171,15 @@ class World:
                 prefix='pymap-verif-%d-' % os.getpid(), dir=SCRATCH_ROOT)
             base = os.path.join(self.scratch, 'base')
             os.makedirs(base, exist_ok=True)
+            self._old_tempdir = tempfile.tempdir
             tempfile.tempdir = os.path.join(self.scratch, 'tmp')
             os.makedirs(tempfile.tempdir, exist_ok=True)
+            from .fs import SimFS
+            self.fs = SimFS(self, self.scratch)
+            self.fs.permute = 'listdir' in self.armed
+            if cfg.get('cross_device_tmp'):
+                self.fs.xdev_dirs = [tempfile.tempdir]
+            self.fs.install()
             self.config = Config(
                 args, base_dir=base, layout=cfg.get('layout', '++'),
                 colon=None, **common)
@@ -330,6 +337,7 @@ class World:
         finally:
             if self.fs is not None:
                 self.fs.uninstall()
+                tempfile.tempdir = getattr(self, '_old_tempdir', None)
             if self.scratch and not self.cfg.get('keep_scratch'):
                 shutil.rmtree(self.scratch, ignore_errors=True)
             env.set_current(None)
